@@ -48,10 +48,10 @@ def _pairs(a):
 class A(Adapter):
     name = "pac_man"
     lean = "pac_man"
-    serves = {"C04", "C05", "C07", "C10", "C12"}
+    serves = {"C01", "C04", "C05", "C07", "C10", "C12"}
     terminate_on_invalid = False
     max_steps = 70
-    ops = ("state", "step", "judge", "instance")
+    ops = ("state", "step", "judge", "instance", "bounds")
 
     def configs(self, tier):
         from jumanji.environments.routing.pac_man import PacMan
